@@ -254,4 +254,16 @@ def rule_simplify_shared(ctx):
     ctx.obls.extend(sub.obls)
 
 
-RULES = [rule_break, rule_decompose, rule_flag_reads, rule_simplify_shared]
+def rule_relation_tables_shared(ctx):
+    """simplification moves a comparison between the general and the integer relation tables of the TPTP printer: both tables must print
+    the relation itself (C06's comparison obligations), else the flag changes the claim"""
+    from . import c06
+    sub = type(ctx)(ctx.prop, ctx.tier, ctx.facts)
+    c06.rule_comparison(sub)
+    ctx.obls.extend(sub.obls)
+    sub = type(ctx)(ctx.prop, ctx.tier, ctx.facts)
+    c06.rule_tokens(sub)
+    ctx.obls.extend(o for o in sub.obls if o["key"].startswith("TAB-MAP:repr_"))
+
+
+RULES = [rule_break, rule_decompose, rule_flag_reads, rule_simplify_shared, rule_relation_tables_shared]
